@@ -129,7 +129,7 @@ class FlMulti(FlLeg):
                 ds, u, f = rng.random() < 0.5, rng.choice(Q.UNKS), rng.choice([None, 0, 1, 2])
                 queries.append(["FL", a, b, ds, u, f])
                 queries.append(["NB", a, "Fwd" if ds else "AnyDir", u, f])
-            yield {"ops": ops, "queries": queries}
+            yield {"ops": ops, "queries": queries, "caching": rng.random() < 0.5}    # caching on: every memo warmed first
 
     def nontrivial(self, case, obs):
         return obs is not None and any(a[0] == "set" and len(a[1]) >= 2 for a in obs["answers"])
@@ -147,7 +147,7 @@ class AfterUnlink(FlLeg):
         for _ in range(n):
             ops, vids, lids, uid = Q.gen_graph_ops(rng, nv=rng.randint(2, 4), nl=rng.randint(1, 8), odd=0.0, universes=False)
             a, b = rng.choice(vids), rng.choice(vids)
-            yield {"ops": ops, "a": a, "b": b, "vids": vids}
+            yield {"ops": ops, "a": a, "b": b, "vids": vids, "caching": rng.random() < 0.5}
 
     def _queries(self, case):
         qs = []
@@ -160,8 +160,9 @@ class AfterUnlink(FlLeg):
 
     def observe(self, case):
         qs = self._queries(case)
-        before = Q.build_and_query(case["ops"], qs)
-        after = Q.build_and_query(case["ops"] + [["UNL", case["a"], case["b"], True]], qs)
+        c = bool(case.get("caching"))       # caching on: the memos are warm when unlink() and the queries run
+        before = Q.build_and_query(case["ops"], qs, caching=c)
+        after = Q.build_and_query(case["ops"], qs, caching=c, then_ops=[["UNL", case["a"], case["b"], True]])
         if before is None or after is None:
             return None
         return {"snap": after["snap"], "answers": after["answers"], "before": before["answers"], "unchanged": after["unchanged"]}
